@@ -328,6 +328,8 @@ def sphere_uv( n_lat : int = 30, n_long : int= 50, center : Vec = Vec(0.,0.,0.),
     Returns:
         SurfaceMesh: the sphere
     """
+    if n_lat<1 or n_long<3:
+        raise Exception("n_lat should be >= 1 and n_long >= 3 for a valid sphere. Aborting")
     sp = RawMeshData()
 
     # add north pole
